@@ -1514,6 +1514,19 @@ def repeat(a, repeats, axis=None):
     return ndarray.of(out, a.dtype)
 
 
+def argsort(a, axis=-1, kind=None, stable=None):
+    """numpy's default sort is an introsort that is stable only for <= 16 elements (insertion sort);
+    longer arrays are outside what the model can promise"""
+    it = list(_conc(a).items) if isinstance(a, ndarray) else list(a)
+    if builtins.all(isinstance(x, (SB, builtins.bool)) for x in it):
+        it = [builtins.bool(x) for x in it]  # a boolean key: decided element by element (forks)
+    if builtins.any(core.is_sym(x) for x in it):
+        raise HarnessError("argsort on symbolic data")
+    if len(it) > 16 and not (stable or kind in ("stable", "mergesort")):
+        raise HarnessError("argsort of more than 16 elements with numpy's default (unstable) sort")
+    return ndarray.of(sorted(range(len(it)), key=lambda i: it[i]), int64)
+
+
 def searchsorted(a, v, side="left"):
     it = _conc(a).items
     if builtins.any(core.is_sym(x) for x in it) or core.is_sym(v):
